@@ -11,10 +11,31 @@ def sim(id, ref, text, note, technique="stateful property-based testing: generat
 COMMON_NOTE = ("Trusted base: the simulator (engine/src/world.rs), its application contract AC1-AC14 (DESIGN.md 2.2), SimStore as a conforming Storage, "
                "the monitor implementation; exploration is random (seeded) and bounded by case count and sequence length - absence of violations is not established.")
 
+S = "E1 deterministic cluster simulator: "
+sim("C01", "DESIGN.md 6/C01", S+"first-report-wins committed log CL over commit indexes, Ready/LightReady committed_entries, sent/installed snapshots and restart-restored commit; application state digests compared with the digest chain of CL. Exploration level: the property quantifies over schedules/faults/crash points; generated histories with an explicit ghost oracle attack it directly, nothing is proved.", COMMON_NOTE)
+sim("C02", "DESIGN.md 6/C02", S+"leader_of[term] map checked after every library call on every node, with election-dense generation (timeouts, duplicated/late vote traffic, crashes between vote and fsync, membership changes).", COMMON_NOTE)
+sim("C03", "DESIGN.md 6/C03", S+"(A) every leader's log is compared against all entries committed by leaders of earlier terms (commit_term ghost); (B) every vote/pre-vote grant is checked at generation time against the voter's own last (term,index).", COMMON_NOTE)
+sim("C04", "DESIGN.md 6/C04", S+"every leader commit advance is checked against the simulator-owned durable disk images (majority of each voter set holds (index, term) durably), every non-leader commit advance against commit_term; plus: a leader's matched index for a peer must be backed by an entry that was durable on that peer.", COMMON_NOTE)
+sim("C05", "DESIGN.md 6/C05", S+"after every log change the node's logical log (storage+unstable) is compared with every other node's (running: volatile, crashed: disk) for log matching; leader append-only and committed-prefix immutability per call.", COMMON_NOTE)
+sim("C06", "DESIGN.md 6/C06", S+"the simulator decides when a message leaves a node (AC2) and judges it at that instant against what has ever been durable on the sender (term, vote per term, entries, snapshot); restart state is compared with released promises. Listed finding F1 (sole-voter leader) is recognised by an exact signature.", COMMON_NOTE)
+sim("C07", "DESIGN.md 6/C07", S+"per-node hand-off ghost (next index to apply, last handed hard state, entries handed for persistence) checked on every Ready/LightReady; persisted-only rule against the disk image; must_sync two-sided; has_ready() <=> ready() non-empty decided on a clone (hook H1).", COMMON_NOTE)
+sim("C08", "DESIGN.md 6/C08", S+"every read request records the global maximum commit index at issue time; every ReadState must appear on the issuing node with index >= that bound (Safe mode forced).", COMMON_NOTE)
+sim("C09", "DESIGN.md 6/C09", S+"(a) what a leader appends on every proposal (incl. batched MsgPropose and auto-leave) against the one-pending-change / joint rules, (b,d) pre-state of every election start, (c) configuration as a function of the applied index across apply, snapshot install and restart.", COMMON_NOTE)
+sim("C13", "DESIGN.md 6/C13", S+"every message a leader emits is checked for shape (contiguous slice of its own log, anchor term, commit bounds, size limit) and against the per-follower progress state before/after the call (snapshot / paused probe / full window / inflight accounting); true uncommitted payload bytes are tracked independently of the crate's counter.", COMMON_NOTE)
+sim("C15", "DESIGN.md 6/C15", S+"pre/post conditions of every delivered MsgSnapshot (install / ignore / fast-forward), leader-side justification of every MsgSnapshot sent, anchor of the first append after a finished snapshot, application state digests after install; C01/C02/C05 monitors stay on under aggressive compaction.", COMMON_NOTE)
+sim("C16", "DESIGN.md 6/C16", S+"(1) pre-vote requests never change (term, vote); (2) with pre_vote on, a term rise needs a higher-term message, MsgTimeoutNow, or a quorum of granted pre-vote responses tallied by the simulator from delivered messages.", COMMON_NOTE)
+sim("C17", "DESIGN.md 6/C17", S+"MsgTimeoutNow only to a fully matched target; proposals refused and log unchanged while a transfer is pending; transfer abandoned within election_tick own ticks or when the target leaves the voters; requests naming learners/unknown ids/self handled as stated.", COMMON_NOTE)
 sim("C20", "DESIGN.md 6/C20",
     "Exploration: every library call of every generated execution (all op kinds, all cluster shapes, async persistence, crash points, removed peers that keep running, local message types offered to step) is wrapped in catch_unwind; any panic whose (file, statement) signature is not a listed finding is a violation; rejected steps must leave the node state (public fields + verif_view) unchanged. Right level: the property is a universally quantified absence-of-panic claim over call histories, which generated histories attack directly.",
     COMMON_NOTE)
 
+COMP_NOTE = "Trusted base: the reference model in engine/src/comp_*.rs (a few dozen lines each, written from the documented semantics) and the generators; calls whose documented contract is a panic are not generated; random exploration, nothing is proved."
+CT = "model-based property testing: proptest-generated operation sequences applied to the real component and to a small reference model, every observable compared after every step; proptest shrinking"
+sim("C11", "DESIGN.md 6/C11", "E2 component check: JointConfig/MajorityConfig committed_index (plain and group commit) and vote_result, ProgressTracker tally_votes/has_quorum/maximal_committed_index against sort-and-pick / counting / brute-force models over arbitrary (also empty, overlapping) halves built through hook H2.", COMP_NOTE, CT)
+sim("C12", "DESIGN.md 6/C12", "E2 component check: Changer simple/enter_joint/leave_joint, restore, Raft::apply_conf_change and Raft::new against a set model re-implemented from the etcd/raft specification; invariants, accept/reject agreement, restore round trip, brute-force quorum intersection over all subsets.", COMP_NOTE, CT)
+sim("C14", "DESIGN.md 6/C14", "E2 component check: RaftLog over a conforming Storage (SimStore) against a plain sequence model with three cursors and a stable boundary; all queries after every op.", COMP_NOTE, CT)
+sim("C18", "DESIGN.md 6/C18", "E2 component check: Inflights against a VecDeque model with capacity and pending capacity; content and order probed on a copy after every op.", COMP_NOTE, CT)
+sim("C19", "DESIGN.md 6/C19", "E2 component check: MemStorage/MemStorageCore against snapshot point + contiguous entries model; Ok values and documented error kinds compared.", COMP_NOTE, CT)
 DONE = list(SIM.keys())
 ALL = ["C%02d" % i for i in range(1, 21)]
 
@@ -29,7 +50,7 @@ for id in ALL:
         "thorough_cmd": f"./check {id} --tier thorough",
         "evidence_file": f"/verif/evidence/{id}.json",
         "replay_cmd_template": f"./check {id} --replay {{path}}",
-        "engine": "clustersim" if id in SIM else "component-models",
+        "engine": "component-models" if id in ("C11","C12","C14","C18","C19") else "clustersim",
         "level_claimed": {"category": "exploration", "text": text, "design_ref": ref},
         "level_note": note,
         "technique": technique,
@@ -49,7 +70,8 @@ manifest = {
         "add_only": True,
     },
     "engines": [
-        {"name": "clustersim", "path": "/verif/engine", "serves_properties": [c for c in DONE], "kind_free_text": "deterministic cluster simulator (real RawNode + simulated app/disk/network/clock) with ghost-state monitors; proptest-driven, byte-decoded cases shared with libFuzzer targets"},
+        {"name": "component-models", "path": "/verif/engine", "serves_properties": [c for c in DONE if c in ("C11","C12","C14","C18","C19")], "kind_free_text": "model-based component checks (proptest op sequences vs reference models), same crate and driver"},
+        {"name": "clustersim", "path": "/verif/engine", "serves_properties": [c for c in DONE if c not in ("C11","C12","C14","C18","C19")], "kind_free_text": "deterministic cluster simulator (real RawNode + simulated app/disk/network/clock) with ghost-state monitors; proptest-driven, byte-decoded cases shared with libFuzzer targets"},
     ],
     "checks": checks,
     "not_applicable": [{"property_id": id, "reason": "check under construction in this commit (engine exists, monitor not yet registered); see DESIGN.md 6"} for id in ALL if id not in SIM],
